@@ -1351,10 +1351,111 @@ pub fn msgops(repo: &Path) -> Result<String, String> {
     ));
     out.push_str(&format!("/-- the number of function bodies walked -/\ndef functionCount : Nat := {}\n\n", functions.len()));
     out.push_str(&format!(
-        "/-- what the constructors of `ParseError` store from their `impl Display` parameters -/\ndef fields : List Field :=\n  [{}]\n\nend RotoV.Gen.MsgOps\n",
+        "/-- what the constructors of `ParseError` store from their `impl Display` parameters -/\ndef fields : List Field :=\n  [{}]\n\n",
         fields.join(",\n   ")
     ));
+    let mut call_args = vec![];
+    for f in MSG_CALLER_FILES {
+        let file = find::parse(repo, f)?;
+        let mut v = MsgCallFinder { file: f, found: vec![] };
+        v.visit_file(&file);
+        call_args.extend(v.found);
+    }
+    out.push_str(&format!(
+        "/-- every text argument of every call of `ParseError::expected` / `invalid_literal` / `custom` in {} -/\ndef callArgs : List CallArg :=\n  [{}]\n\nend RotoV.Gen.MsgOps\n",
+        MSG_CALLER_FILES.join(", "),
+        call_args.join(",\n   ")
+    ));
     Ok(out)
+}
+
+/// the parser files that call the constructors of `ParseError`
+const MSG_CALLER_FILES: &[&str] =
+    &["src/parser/mod.rs", "src/parser/expr.rs", "src/parser/filter_map.rs", "src/parser/signature.rs"];
+
+/// what a caller hands to a text parameter of a constructor of `ParseError`
+fn msg_arg(e: &syn::Expr) -> String {
+    match e {
+        syn::Expr::Lit(l) if matches!(l.lit, syn::Lit::Str(_)) => ".lit".to_string(),
+        syn::Expr::Path(p) if p.path.get_ident().is_some() => format!(".var {}", lean_str(&txt(p))),
+        syn::Expr::Reference(r) => msg_arg(&r.expr),
+        syn::Expr::Paren(p) => msg_arg(&p.expr),
+        syn::Expr::Macro(m) if m.mac.path.is_ident("format") => {
+            match m.mac.parse_body_with(syn::punctuated::Punctuated::<syn::Expr, syn::Token![,]>::parse_terminated) {
+                Ok(args)
+                    if args.iter().enumerate().all(|(i, a)| match a {
+                        syn::Expr::Lit(l) => i == 0 && matches!(l.lit, syn::Lit::Str(_)),
+                        syn::Expr::Path(p) => i > 0 && p.path.get_ident().is_some(),
+                        _ => false,
+                    }) =>
+                {
+                    ".fmt".to_string()
+                }
+                _ => format!(".other {}", lean_str(&txt(e))),
+            }
+        }
+        _ => format!(".other {}", lean_str(&txt(e))),
+    }
+}
+
+struct MsgCallFinder {
+    file: &'static str,
+    found: Vec<String>,
+}
+
+impl<'ast> syn::visit::Visit<'ast> for MsgCallFinder {
+    fn visit_item_fn(&mut self, i: &'ast syn::ItemFn) {
+        if !test_or_hook(&i.attrs) {
+            syn::visit::visit_item_fn(self, i);
+        }
+    }
+    fn visit_impl_item_fn(&mut self, i: &'ast syn::ImplItemFn) {
+        if !test_or_hook(&i.attrs) {
+            syn::visit::visit_impl_item_fn(self, i);
+        }
+    }
+    fn visit_item_impl(&mut self, i: &'ast syn::ItemImpl) {
+        if !test_or_hook(&i.attrs) {
+            syn::visit::visit_item_impl(self, i);
+        }
+    }
+    fn visit_item_mod(&mut self, i: &'ast syn::ItemMod) {
+        if !test_or_hook(&i.attrs) {
+            syn::visit::visit_item_mod(self, i);
+        }
+    }
+    fn visit_expr_call(&mut self, e: &'ast syn::ExprCall) {
+        let f = txt(&e.func);
+        if let Some(ctor) = f.strip_prefix("ParseError::") {
+            // the last argument is the location (a `Span`, not a text); `escape` takes the escaper's error and a span
+            let texts = match ctor {
+                "expected" | "custom" => 2,
+                "invalid_literal" => 3,
+                "escape" => 0,
+                _ => usize::MAX,
+            };
+            if texts == usize::MAX || (ctor != "escape" && e.args.len() != texts + 1) {
+                self.found.push(format!(
+                    "⟨{}, {}, .other {}⟩",
+                    lean_str(self.file),
+                    lean_str(ctor),
+                    lean_str(&format!("call not understood: {}", txt(e)))
+                ));
+            } else {
+                for a in e.args.iter().take(texts) {
+                    self.found.push(format!("⟨{}, {}, {}⟩", lean_str(self.file), lean_str(ctor), msg_arg(a)));
+                }
+            }
+        }
+        syn::visit::visit_expr_call(self, e);
+    }
+    fn visit_macro(&mut self, m: &'ast syn::Macro) {
+        if let Ok(args) = m.parse_body_with(syn::punctuated::Punctuated::<syn::Expr, syn::Token![,]>::parse_terminated) {
+            for a in &args {
+                self.visit_expr(a);
+            }
+        }
+    }
 }
 
 /// how often the identifier occurs as an expression in the block
